@@ -117,8 +117,8 @@ def run(cfg):
     for q, fs in lib.funcs.items():
         if not (q.startswith(SC + '::') or q.startswith('ace_time::clock::SystemClockLoop::')):
             continue
-        if q.endswith('::syncNow'):
-            continue
+        if q.split('::')[-1] not in ('getNow', 'keepAlive'):
+            continue                # a reading may only move the seconds forward; setting the clock (syncNow and whoever applies a response) may do anything
         for f in fs:
             if f.node.get('kind') == 'CXXConstructorDecl':
                 continue    # member initialisers establish the initial (invalid) value
